@@ -4,10 +4,10 @@ import vlib
 from checks import c03
 
 MANIFEST = {
-    "modules": ["Logging", "Exec", "Trace_Ser"],
+    "modules": ["Logging", "Exec", "Trace_Ser", "Trace_Same"],
     "text": "Log: Logging.tla places mahf's own Logger in configurations run by the reference interpreter (Exec.tla) with "
             "a caller-supplied rule set (always / never / every-2 / scripted triggers; K0 / U / iteration / missing sources; "
-            "repeated names). TLC enumerates all programs up to the bound x scripts x 11 rule sets and checks "
+            "repeated names). TLC enumerates all programs up to the bound x scripts x 13 rule sets (incl. shadowed stateful triggers) and checks "
             "OneStepPerFiringExecution, StepsExact (one entry per fired rule, value at that moment, null for a missing "
             "source, iteration first) and RuleOrderKept against a ghost record of logger executions; every enumerated case "
             "and seeded random ones run on the real code with a real LogConfig, and TLC validates the resulting log three "
@@ -15,7 +15,10 @@ MANIFEST = {
             "generated tree TLC requires that to_ron succeeds, that the program can be read back from the name-preserving "
             "serialisation (skeleton = program) and that a clone serialises identically; for all 21 templates over the "
             "parameter grid Trace_Ser.tla requires serialisability, clone identity, and 'same serialisation iff same "
-            "template and parameter values'.",
+            "template and parameter values' (incl. configurations differing only in an identifier type parameter, shipped "
+            "and user-defined with colliding short names). Experiment runner: Trace_Same.tla requires configuration.ron to "
+            "equal the direct serialisation of the configuration that was run (also when the folder is reused) and each "
+            "exported run log to decode to the log of the same run made directly.",
     "technique": "TLA+ spec + TLC exhaustive case enumeration + TLC trace validation of real logs / exports / serialisations",
     "design_ref": "DESIGN.md §6 C15",
     "note": "logger placements without a visible pass counter are excluded (the caller's state holds one); differences only in "
@@ -63,6 +66,10 @@ SER_DESCRIBE = {
 def run_ser(ctx):
     from checks.templates_grid import specs
     sp = specs(ctx.quick, [0], [1, 7])
+    # configurations differing only in an identifier type parameter, incl. user-defined ones with colliding short names
+    for ident in ["default", "mahf::Global", "mahf::A", "mahf::B", "user::A", "user::nested::A", "user::Global"]:
+        sp.append({"run": len(sp), "template": "ident", "params": {"id": ident}, "n": 1, "seed": 0, "eval": "seq",
+                   "prob": {"kind": "real", "f": 0, "dim": 2, "lo": -1.0, "hi": 1.0}})
     spath = os.path.join(ctx.work, "ser.specs.ndjson")
     with open(spath, "w") as f:
         for s in sp:
@@ -73,13 +80,36 @@ def run_ser(ctx):
                  SER_DESCRIBE, {"driver": "templates-ser"}, max_rejections=6)
 
 
+EXP_DESCRIBE = {
+    "state": lambda r: r.get("digest", ""),
+    "act": lambda r: {"ev": r["ev"], "key": r.get("key", ""), "pool": r.get("pool", 0), "rn": r.get("rn", 0)},
+    "is_reset": lambda r: False,
+    "nontrivial": lambda r, before, after: True,
+}
+
+
+def run_experiments(ctx):
+    """The batch experiment runner's records (src/experiments.rs): configuration.ron is the serialisation of the
+    configuration that was run (also when a folder is reused for another experiment), and every <problem>_<run>.cbor decodes
+    to the log of that very run (reference: the same run made directly)."""
+    tr = os.path.join(ctx.work, "exp.trace.ndjson")
+    ctx.harness("determinism", "experiments", **{"out": tr, "par-out": os.path.join(ctx.work, "exp.par.ndjson"),
+                                                 "seed": ctx.seed, "exp-runs": 3 if ctx.quick else 8})
+    ctx.validate("Trace_Same", "SPECIFICATION TraceSpec\nPOSTCONDITION TraceDone\nCHECK_DEADLOCK FALSE\n", tr, "experiments",
+                 EXP_DESCRIBE, {"driver": "determinism-experiments"}, timeout=600)
+
+
 def run(ctx):
     run_logging(ctx)
     run_ser(ctx)
+    run_experiments(ctx)
     return ctx.finish(RULE)
 
 
 def replay(ctx, rp):
+    if rp["meta"].get("driver") == "determinism-experiments":
+        run_experiments(ctx)
+        return ctx.finish(RULE)
     if rp["meta"].get("driver") == "templates-ser":
         bad = rp["first_unmatched"]
         spath = os.path.join(ctx.work, "replay.specs.ndjson")
